@@ -823,3 +823,41 @@ pub fn s_overlap() -> WCfg {
     c.max_stalls = 3;
     c
 }
+
+
+/// Life-cycle variants: xpay mode, an amountless invoice with a declared amount, two stored pending parts.
+pub fn s_life_xpay() -> WCfg {
+    let mut c = s_life("S-life/1htlc/xpay", false, false, false);
+    c.xpay = true;
+    c
+}
+
+pub fn s_life_amountless() -> WCfg {
+    let mut c = WCfg::base("S-life/amountless/2htlc");
+    let inv = c.add_invoice(&InvoiceSpec::amountless(3));
+    let tlv = common::tu64(1_000_000);
+    for (n, a) in [("z1", 600_000u64), ("z2", 405_000)] {
+        let t = add_htlc_full(&mut c, n, inv, a, Some(1_005_000), Some(tlv.clone()));
+        set_amount(&mut c, t, 1_000_000);
+    }
+    c.max_parts = 2;
+    c.max_crashes = 1;
+    c.crash_lose_responses = true;
+    c.write_faults = true;
+    c
+}
+
+pub fn s_hist_two_pending(age_s: u64) -> WCfg {
+    let mut c = s_hist("pending-pendingpart", age_s, false);
+    c.name = format!("S-hist/pending-2pendingparts/age{}s/1htlc", age_s);
+    let h = c.invoices[0].hash_hex.clone();
+    c.seed.parts.push(Part {
+        hash: h,
+        groupid: 1,
+        partid: 2,
+        status: PartStatus::Pending,
+        cmd: None,
+    });
+    c.fail_codes = vec![203, 204];
+    c
+}
